@@ -13,6 +13,8 @@ Decided (structural):
  * one creation per unfolding (K12 + typed HIR): the closure template puts the body inside the
    `move ||`; `Closure::solve` calls the stored closure on every solve; every recursion cycle among
    the library's relations passes through such a closure body.
+ (round 5, shared with C03) distinct variables stay distinct in the answer: reify threads its map through
+   every field, one `_.n` per unbound variable.
 """
 import C13
 import C14
@@ -296,6 +298,12 @@ def run(ctx, fb, cfg):
                 # every name occurring anywhere in a pattern is collected (and so gets its own
                 # new variable): a name missed by get_vars silently captures an outer variable
                 C13.check_get_vars(_Prefixed(ctx, "C15"), fb.macros)
+    # distinct variables stay distinct in the answer: the reifying map is threaded through every field and
+    # element, so each unbound variable gets its own `_.n` (shared with C03)
+    import C03
+
+    C03.check_reify_threading(ctx, lib, "C15.K3.reify-threads")
+    C03.check_smap_reify_var(ctx, lib, "C15.K3.fresh-any-per-var")
 
 
 def run_once(ctx, tier):
